@@ -202,11 +202,11 @@ func checkCellWriters(c *Ctx, p *Prog, rule, ruleConf string) {
 		return
 	}
 	hs := loopHeaders(fn)
-	if len(hs) != 2 {
-		c.Undecided(rule, "getActionRowData", fmt.Sprintf("expected two loops (padding, cells), found %d", len(hs)))
+	if len(hs) < 1 || len(hs) > 2 {
+		c.Undecided(rule, "getActionRowData", fmt.Sprintf("expected the loop over the cells (and possibly one that measures their width before it), found %d loops", len(hs)))
 		return
 	}
-	head := hs[1]
+	head := hs[len(hs)-1] // the cells are written by the last loop
 	for _, kind := range actionKinds {
 		for _, conf := range []bool{false, true} {
 			var act Val
